@@ -237,3 +237,59 @@ func VerifC03_q_lifecycle() {
 func VerifC03_t_lifecycleTwoPods() {
 	vpC03Lifecycle(vpC03Opts{kinds: []int{vpKindSts, vpKindDp, vpKindTApp}, twoPods: true})
 }
+
+// BOUND: topology 1 (4 IPs); a deployment with the immutable policy, replicas 3, three pods bound; scaled to 2 (one IP is surplus) or left at 3 (none is); two of its pods are deleted; the unbind of the first runs while the unbind of the second runs as a second logical thread starting inside any one window right before/after an API-server or IPAM call of the first (symbolic window 0..14), parking wherever it needs a key lock the first holds; then caches catch up and one resync pass. The deployment must end up holding exactly min(3, replicas) IPs: the surplus is released once, nothing the policy reserves is released
+// ASSUME: C03: two logical threads as in VerifC01_q_releaseVsRebind
+func VerifC03_q_concurrentUnbinds() {
+	w := vpNewWorld(1, false)
+	if err := w.configure(); err != nil {
+		return
+	}
+	w.wrapIPAM()
+	w.setDeployment(3)
+	var names []string
+	for i := 0; i < 3; i++ {
+		name := vpPodNameOf(vpKindDp, i)
+		names = append(names, name)
+		w.createPod(vpMakePod(name, "U"+name, vpKindDp, "immutable", "", ""))
+		w.syncListers()
+		nodes, err := w.filter(name, "n1", "n2", "n3")
+		if err != nil || len(nodes) == 0 || w.bind(name, nodes[0]) != nil {
+			return
+		}
+		w.setRunning(name)
+	}
+	replicas := int32(2 + nondetChoice(2))
+	w.setDeployment(replicas)
+	w.syncListers()
+	w.deletePod(names[0])
+	w.deletePod(names[2])
+	w.syncListers()
+	verifAssume(len(w.pending) == 2)
+	second := w.pending[1]
+	w.pending = w.pending[:1]
+	w.interferer = func() { _ = w.plugin.unbind(second) }
+	w.windowAt = nondetInt(0, 14)
+	_ = w.handleEvent(0)
+	w.finishInterference()
+	if w.interferer != nil {
+		f := w.interferer
+		w.interferer = nil
+		f() // the second unbind did not overlap the first: sequential order
+	} else {
+		verifReach("unbind-inside-unbind")
+	}
+	w.syncListers()
+	w.resync()
+	held := 0
+	for _, e := range w.dump() {
+		if e.Allocated && strings.HasPrefix(e.Key, "dp_ns_app_") {
+			held++
+		}
+	}
+	verifReach("both-unbound")
+	verifAssert("C03/immutable-dp-keeps-replicas", held >= int(replicas), "overlapping unbinds of an immutable deployment released IPs the policy reserves: it holds fewer IPs than replicas")
+	verifAssert("C03/immutable-dp-surplus-released", held <= int(replicas), "an immutable deployment holds more IPs than replicas after its surplus pods are gone")
+	verifAssert("C03/agree-concurrent", w.agree(), "memory and store disagree")
+	verifAssert("C03/no-lock-held", w.noLockHeld(), "a lock is still held")
+}
